@@ -41,6 +41,15 @@ CLAIMED["C16"] = ("(a) typestate over sexp_gc / sexp_destroy_context: mark*, wea
     "typestate over the CFG (phase automaton), table/layout agreement, dominance (guard + flag store dominate release), call-graph reachability",
     "3 C16")
 
+CLAIMED["C01"] = ("Structural clauses: (b) kind-set dataflow proves every typed access on a C primitive's parameter (or on a value loaded "
+    "from a user-controlled container) is dominated by a tag guard admitting only the accessed union member - the VM does not type-check "
+    "foreign-call arguments; (f) every direct C recursion cycle reachable from reader/writer/equal?/eval goes through a verified depth-parameter "
+    "bounder or a listed by-construction bounder; (a) dispatch totality of the VM switch; (d) slot accessor rows designate sexp fields; "
+    "(g) saved context state restored on every path. All-paths decisions of these clauses (necessary conditions of memory safety / error "
+    "containment); index arithmetic, VM operand guards and stack-growth sufficiency are not decided.",
+    "kind-set refinement dataflow over the CFG with boolean condition decomposition (guard dominates access); call-graph SCCs with depth-bound idiom verification; table/layout agreement; save/restore typestate",
+    "3 C01")
+
 # properties planned in DESIGN.md but whose checks are not built yet are listed
 # as not applicable *for now* with that reason, so the manifest never over-claims
 PENDING = {}
